@@ -238,6 +238,8 @@ def _translate_valid(inc, exc):
             '_validate_include': lambda x: x,    # identity on sets: the shapes are C11.d's (E1) job
             '_validate_exclude': lambda x: x,
             'nodes': lambda cat: pz.SetBV.of(M.nodes(cat), CATS),   # live: the real nodes() run per concrete category
+            'leaves': lambda cat: pz.SetBV.of(M.leaves(cat), CATS),
+            'children': lambda cat: pz.SetBV.of(M.children(cat), CATS),
             'all': lambda: pz.SetBV.of(M.all(), CATS),
             'hierarchy': M.hierarchy,
         }),
@@ -250,6 +252,9 @@ def _translate_match(cat, inc, exc):
     env = {
         'cls': pz.Record({
             'nodes': lambda c: pz.SetBV.of(M.nodes(c), CATS),
+            'leaves': lambda c: pz.SetBV.of(M.leaves(c), CATS),        # live tree queries on the concrete category: a _match written
+            'children': lambda c: pz.SetBV.of(M.children(c), CATS),    # against any of them stays inside the translatable subset
+            'all': lambda: pz.SetBV.of(M.all(), CATS),
             'valid': lambda include=None, exclude=None: _translate_valid(include, exclude),
         }),
         'category': cat, 'include': inc, 'exclude': exc,
